@@ -136,3 +136,212 @@ def _pr_post(a, ret, st):
 
 
 pr.ensures("prediction", _pr_post)
+
+# ---- predict_single_drug (arity 1)
+def fit1(t, s, a):
+    D = t.W.shape[1]
+    nT = t.V2.shape[0]
+    return t.alpha + z3.Select(t.W0.data, s) + Xz1(t.V0.data, a) + sumr(P1s(t.W.data, t.V1.data, nT, s, a), D)
+
+
+P1s = z3.Function("P1single_row", z3.ArraySort(Int, RealArr), z3.ArraySort(Int, RealArr), Int, Int, Int, RealArr)
+
+
+def spec_rows1(t):
+    s, a, d = z3.Ints("s!sp1 a!sp1 d!sp1")
+    W, V1, nT = t.W.data, t.V1.data, t.V2.shape[0]
+    return [z3.ForAll([s, a, d], z3.Select(P1s(W, V1, nT, s, a), d) == z3.Select(z3.Select(W, s), d) * Xz2(V1, nT, a, d),
+                      patterns=[z3.Select(P1s(W, V1, nT, s, a), d)])]
+
+
+from pyvc.spec import TConst  # noqa
+PS = "batchie.models.sparse_combo.predict_single_drug"
+ps = contract(PS, params=[("mcmc_sample", T_theta), ("data", T_screen(1)), ("viability", TBool)], returns=TArr(Real))
+ps.variants = [("mean", [("mcmc_sample", T_theta), ("data", T_screen(1)), ("viability", TConst(False))]),
+               ("viability", [("mcmc_sample", T_theta), ("data", T_screen(1)), ("viability", TConst(True))])]
+ps.requires(lambda a: screen_shape_wf(a.data) + theta_wf(a.mcmc_sample) + [ids_in_range(a.mcmc_sample, a.data, 1)])
+ps.use(lambda a: spec_rows1(a.mcmc_sample) + sumr_axioms())
+
+
+def _ps_post(a, ret, st):
+    n = nrows(a.data)
+    t = a.mcmc_sample
+    sid, tid = G(a.data, "_sample_ids").data, G(a.data, "_treatment_ids").data
+    val = lambda rr: fit1(t, z3.Select(sid, rr), z3.Select(z3.Select(tid, rr), 0))  # noqa
+    want = (lambda rr: clipv(expit(val(rr)))) if a.viability is True else val
+
+    def hints(r0):
+        out = [z3.Select(ret.data, r0), z3.Select(sid, r0)]
+        fr = getattr(st, "_cur_frame", None)
+        for nm in ("Mu", "intercept", "interaction1"):
+            v = fr.locals.get(nm) if fr is not None else None
+            if isinstance(v, Arr):
+                out.append(z3.Select(v.data, r0))
+        return out
+    return [("length", ret.shape[0] == n),
+            ("row_wise", Forall([("r!ps", Int)], lambda rr: z3.Implies(z3.And(rr >= 0, rr < n), z3.Select(ret.data, rr) == want(rr)),
+                                patterns=lambda rr: [z3.Select(ret.data, rr)], hints=hints)),
+            ("sample_untouched", z3.And(*[same_array(getattr(t, f), getattr(a.old.mcmc_sample, f)) for f in ("W", "W0", "V1", "V0")]))]
+
+
+ps.ensures("prediction", _ps_post)
+
+# ---- the sample's methods: arity dispatch, variance
+for mname, viab in (("predict_viability", True), ("predict_conditional_mean", False)):
+    for ar in (1, 2):
+        pass
+pv = contract(SAMPLE + ".predict_conditional_variance", params=[("self", T_theta), ("data", T_screen(2))], returns=TArr(Real))
+pv.requires(lambda a: screen_shape_wf(a.data) + [a.self.precision > 0])
+pv.ensures("reciprocal_precision", lambda a, ret, st: [
+    ("length", ret.shape[0] == nrows(a.data)),
+    ("values", z3.ForAll([z3.Int("r!pv")], z3.Implies(z3.And(z3.Int("r!pv") >= 0, z3.Int("r!pv") < nrows(a.data)),
+                                                    z3.And(z3.Select(ret.data, z3.Int("r!pv")) == 1 / a.self.precision, z3.Select(ret.data, z3.Int("r!pv")) > 0)),
+                         patterns=[z3.Select(ret.data, z3.Int("r!pv"))]))])
+
+for mname, viab in (("predict_viability", True), ("predict_conditional_mean", False)):
+    cm = contract(SAMPLE + "." + mname, params=[("self", T_theta), ("data", T_screen(2))], returns=TArr(Real))
+    cm.variants = [("arity2", [("self", T_theta), ("data", T_screen(2))]), ("arity1", [("self", T_theta), ("data", T_screen(1))]),
+                   ("arity3", [("self", T_theta), ("data", T_screen(3))])]
+    cm.requires(lambda a: screen_shape_wf(a.data) + theta_wf(a.self) + [ids_in_range(a.self, a.data, min(arity(a.data), 2))])
+    cm.raises("NotImplementedError", lambda a: bool_(arity(a.data) not in (1, 2)))
+    cm.use(lambda a: spec_rows(a.self) + spec_rows1(a.self) + sumr_axioms())
+
+    def _cm_post(a, ret, st, _v=viab):
+        n = nrows(a.data)
+        t = a.self
+        sid, tid = G(a.data, "_sample_ids").data, G(a.data, "_treatment_ids").data
+        if arity(a.data) == 2:
+            val = lambda rr: fit(t, z3.Select(sid, rr), z3.Select(z3.Select(tid, rr), 0), z3.Select(z3.Select(tid, rr), 1))  # noqa
+        else:
+            val = lambda rr: fit1(t, z3.Select(sid, rr), z3.Select(z3.Select(tid, rr), 0))  # noqa
+        want = (lambda rr: clipv(expit(val(rr)))) if _v else val
+        return [("length", ret.shape[0] == n),
+                ("row_wise", Forall([("r!cm", Int)], lambda rr: z3.Implies(z3.And(rr >= 0, rr < n), z3.Select(ret.data, rr) == want(rr)),
+                                    patterns=lambda rr: [z3.Select(ret.data, rr)], hints=lambda r0: [z3.Select(ret.data, r0), z3.Select(sid, r0)]))]
+    cm.ensures("prediction", _cm_post)
+
+# ---- abstract thetas for the stacked / averaged helpers
+from pyvc.spec import CLASS_MODELS, TNat  # noqa
+from pyvc.values import Ref  # noqa
+pm_fn = z3.Function("theta_predict_mean", Ref, Ref, RealArr)  # (theta, screen token) -> per-row predictions (function of both only)
+pvb_fn = z3.Function("theta_predict_viability", Ref, Ref, RealArr)
+pvar_fn = z3.Function("theta_predict_variance", Ref, Ref, RealArr)
+
+
+def _theta_method(fn):
+    def attr(i, th):
+        def call(interp, args, kw, node, fr):
+            data = args[0]
+            return Arr((nrows(data),), fn(th.term, data.term), "float", fresh=True)
+        return call
+    return attr
+
+
+CLASS_MODELS["ThetaTok"] = {"predict_conditional_mean": _theta_method(pm_fn), "predict_viability": _theta_method(pvb_fn),
+                            "predict_conditional_variance": _theta_method(pvar_fn)}
+T_holder = TObj("batchie.core.ThetaHolder", fields={"_n_thetas": TNat, "thetas": TSeq(TAObj("ThetaTok"))})
+M = "batchie.models.main."
+
+
+def th(a, t):
+    return z3.Select(a.thetas.thetas.seq.cols, t)
+
+
+for fname, fn in (("predict_mean_all", pm_fn), ("predict_viability_all", pvb_fn)):
+    pa = contract(M + fname, params=[("screen", TAObj("Screen")), ("thetas", T_holder)], returns=TArr(Real, 2))
+    pa.requires(lambda a: screen_shape_wf(a.screen) + [a.thetas.thetas.seq.length == a.thetas._n_thetas])
+
+    def _pa_post(a, ret, st, _fn=fn):
+        t, r = z3.Int("t!pa"), z3.Int("r!pa")
+        n, m = nrows(a.screen), a.thetas._n_thetas
+        return [("shape", z3.And(ret.shape[0] == m, ret.shape[1] == n)),
+                ("one_row_per_sample_in_holder_order", z3.ForAll([t, r], z3.Implies(z3.And(t >= 0, t < m, r >= 0, r < n),
+                                                                                    z3.Select(z3.Select(ret.data, t), r) == z3.Select(_fn(th(a, t), a.screen.term), r)),
+                                                                 patterns=[z3.Select(z3.Select(ret.data, t), r)]))]
+    pa.ensures("stacked", _pa_post)
+
+    def _pa_inv(s, _fn=fn):
+        t, r = z3.Int("t!pi"), z3.Int("r!pi")
+        n = nrows(s.screen)
+        return [("shape", z3.And(s.result.shape[0] == s.thetas._n_thetas, s.result.shape[1] == n)),
+                ("rows_so_far", z3.ForAll([t, r], z3.Implies(z3.And(t >= 0, t < s.it, r >= 0, r < n),
+                                                            z3.Select(z3.Select(s.result.data, t), r) == z3.Select(_fn(th(s, t), s.screen.term), r)),
+                                         patterns=[z3.Select(z3.Select(s.result.data, t), r)]))]
+    pa.loop("for#0", invariant=_pa_inv)
+
+tsum = z3.Function("theta_sum", z3.ArraySort(Int, Ref), Ref, Int, Int, Int, Real)  # (thetas, screen, which(0 mean/1 viab), row, upto)
+
+
+def tsum_unfold(a, which, fn, upto):
+    r = z3.Int("r!ts")
+    T_, S_ = a.thetas.thetas.seq.cols, a.screen.term
+    return [z3.ForAll([r], tsum(T_, S_, which, r, 0) == 0, patterns=[tsum(T_, S_, which, r, 0)]),
+            z3.ForAll([r], tsum(T_, S_, which, r, upto + 1) == tsum(T_, S_, which, r, upto) + z3.Select(fn(z3.Select(T_, upto), S_), r),
+                      patterns=[tsum(T_, S_, which, r, upto + 1)])]
+
+
+for fname, fn, which in (("predict_mean_avg", pm_fn, 0), ("predict_viability_avg", pvb_fn, 1)):
+    pg = contract(M + fname, params=[("screen", TAObj("Screen")), ("thetas", T_holder)], returns=TArr(Real))
+    pg.requires(lambda a: screen_shape_wf(a.screen) + [a.thetas.thetas.seq.length == a.thetas._n_thetas, a.thetas._n_thetas >= 1])
+
+    def _pg_post(a, ret, st, _w=which):
+        r = z3.Int("r!pg")
+        n, m = nrows(a.screen), a.thetas._n_thetas
+        return [("length", ret.shape[0] == n),
+                ("exact_mean", z3.ForAll([r], z3.Implies(z3.And(r >= 0, r < n),
+                                                         z3.Select(ret.data, r) == tsum(a.thetas.thetas.seq.cols, a.screen.term, _w, r, m) / z3.ToReal(m)),
+                                         patterns=[z3.Select(ret.data, r)]))]
+    pg.ensures("average", _pg_post)
+
+    def _pg_inv(s, _w=which):
+        r = z3.Int("r!pgi")
+        n = nrows(s.screen)
+        return [("length", s.result.shape[0] == n),
+                ("partial_sum", z3.ForAll([r], z3.Implies(z3.And(r >= 0, r < n), z3.Select(s.result.data, r) == tsum(s.thetas.thetas.seq.cols, s.screen.term, _w, r, s.it)),
+                                          patterns=[z3.Select(s.result.data, r)]))]
+    pg.loop("for#0", invariant=_pg_inv, use=(lambda s, _w=which, _fn=fn: tsum_unfold(s, _w, _fn, s.it) + tsum_unfold(s, _w, _fn, s.it - 1)),
+            types={"result": TArr(Real)})
+
+# ---- interaction sample: conditional mean (second-order term only) and variance
+ISAMPLE = "batchie.models.sparse_combo_interaction.SparseDrugComboInteractionMCMCSample"
+T_itheta = TObj(ISAMPLE, fields={"W": TArr(Real, 2), "V2": TArr(Real, 2), "precision": TReal, "single_effect_lookup": TNone})
+im = contract(ISAMPLE + ".predict_conditional_mean", params=[("self", T_itheta), ("data", T_screen(2))], returns=TArr(Real))
+im.variants = [("arity2", im.params), ("arity1", [("self", T_itheta), ("data", T_screen(1))])]
+im.requires(lambda a: screen_shape_wf(a.data) + [a.self.V2.shape[1] == a.self.W.shape[1], a.self.V2.shape[0] >= 1] + (
+    [_ids_i(a)] if arity(a.data) == 2 else []))
+im.raises("ValueError", lambda a: bool_(arity(a.data) != 2))
+
+
+def _ids_i(a):
+    r = z3.Int("r!ii")
+    n = nrows(a.data)
+    sid, tid = G(a.data, "_sample_ids").data, G(a.data, "_treatment_ids").data
+    nS, nT = a.self.W.shape[0], a.self.V2.shape[0]
+    return z3.ForAll([r], z3.Implies(z3.And(r >= 0, r < n), z3.And(z3.Select(sid, r) >= 0, z3.Select(sid, r) < nS,
+                                                                  z3.Select(z3.Select(tid, r), 0) >= -1, z3.Select(z3.Select(tid, r), 0) < nT,
+                                                                  z3.Select(z3.Select(tid, r), 1) >= -1, z3.Select(z3.Select(tid, r), 1) < nT)),
+                     patterns=[z3.Select(sid, r), z3.Select(tid, r)])
+
+
+def _ispec(a):
+    s, x, y, d = z3.Ints("s!is x!is y!is d!is")
+    W, V2, nT = a.self.W.data, a.self.V2.data, a.self.V2.shape[0]
+    return [z3.ForAll([s, x, y, d], z3.Select(P2(W, V2, nT, s, x, y), d) == z3.Select(z3.Select(W, s), d) * Xz2(V2, nT, x, d) * Xz2(V2, nT, y, d),
+                      patterns=[z3.Select(P2(W, V2, nT, s, x, y), d)])] + sumr_axioms()
+
+
+im.use(_ispec)
+im.ensures("interaction_only", lambda a, ret, st: [
+    ("length", ret.shape[0] == nrows(a.data)),
+    ("row_wise", Forall([("r!im", Int)], lambda rr: z3.Implies(z3.And(rr >= 0, rr < nrows(a.data)), z3.Select(ret.data, rr) == sumr(
+        P2(a.self.W.data, a.self.V2.data, a.self.V2.shape[0], z3.Select(G(a.data, "_sample_ids").data, rr),
+           z3.Select(z3.Select(G(a.data, "_treatment_ids").data, rr), 0), z3.Select(z3.Select(G(a.data, "_treatment_ids").data, rr), 1)), a.self.W.shape[1])),
+        patterns=lambda rr: [z3.Select(ret.data, rr)], hints=lambda r0: [z3.Select(ret.data, r0), z3.Select(G(a.data, "_sample_ids").data, r0)]))])
+
+iv_ = contract(ISAMPLE + ".predict_conditional_variance", params=[("self", T_itheta), ("data", T_screen(2))], returns=TArr(Real))
+iv_.requires(lambda a: screen_shape_wf(a.data) + [a.self.precision > 0])
+iv_.ensures("reciprocal_precision", lambda a, ret, st: [
+    ("length", ret.shape[0] == nrows(a.data)),
+    ("values", z3.ForAll([z3.Int("r!iv")], z3.Implies(z3.And(z3.Int("r!iv") >= 0, z3.Int("r!iv") < nrows(a.data)),
+                                                    z3.And(z3.Select(ret.data, z3.Int("r!iv")) == 1 / a.self.precision, z3.Select(ret.data, z3.Int("r!iv")) > 0)),
+                         patterns=[z3.Select(ret.data, z3.Int("r!iv"))]))])
